@@ -491,6 +491,10 @@ func run(w *strings.Builder) error {
 	if strings.HasPrefix(twice("t"), "t,") && note("rhs") > 0 {
 		fmt.Fprintln(w, "cond held")
 	}
+	var up string
+	if up = strings.ToUpper(twice("u")); up != "" {
+		fmt.Fprintln(w, "init held", up)
+	}
 	// helpers that defer, called for their value in the middle of the caller: the deferred calls run
 	// after the results are evaluated and before the caller goes on
 	for _, nm := range []string{"p", ""} {
